@@ -8,7 +8,7 @@ def run(chk):
         "Decides absence of specific classes of panic; it does not prove the ~500 remaining panic-capable sites (indexing, unwrap on internal "
         "invariants, third-party code) safe. R04a: no coercion result on a run-time value is unwrapped in resolve-reachable stdlib code. R04b: no result "
         "of a `dyn Target` call is unwrapped. R04c: every keyword compile() reads is declared (a mismatch is the 'invalid function signature' panic). "
-        "R04e: no overflow-capable negation / iN::abs / iN::pow of a run-time signed integer. R04f: no unguarded sign-losing cast feeding a count/index. R04g: no str slice/index bound computed from a character count. R04h: divisors and chunk/window/step sizes are constants or compared against zero. R04i: `regex::Captures` is indexed with the panicking `[]` only at the reviewed sites where the group always takes part in the match (an optional or alternated group makes `caps[i]` panic; `caps.get(i)` is the total API).")
+        "R04e: no overflow-capable negation / iN::abs / iN::pow of a run-time signed integer. R04f: no unguarded sign-losing cast feeding a count/index. R04g: no str slice/index bound computed from a character count. R04h: divisors and chunk/window/step sizes are constants or compared against zero. R04i: `regex::Captures` is indexed with the panicking `[]` only at the reviewed sites where the group always takes part in the match (an optional or alternated group makes `caps[i]` panic; `caps.get(i)` is the total API). R04j: in resolve-reachable stdlib code the result of a library call whose failure depends on the *content* of its argument (AEAD decryption = authentication, float->Decimal conversion = range, UTF-8 validation, FromStr parsing, regex compilation) is never consumed directly by unwrap/expect; all other unwrap-on-call sites are listed as instances but not decided.")
     chk.assumptions += ["builds with overflow checks (the test profile) panic on arithmetic overflow; release builds wrap — the rule treats both as defects"]
     M = sr.function_model(chk.facts)
     sr.rule_coercion_unwrapped(chk, "R04a", M)
@@ -21,6 +21,7 @@ def run(chk):
     sr.rule_zero_intolerant(chk, "R04h")
 
     rule_r04i(chk)
+    rule_r04j(chk, M)
 
 
 CAPTURES_INDEX_OK = {
@@ -49,3 +50,71 @@ def rule_r04i(chk):
                                   "%s indexes a regex::Captures with `[]`: a named or numbered group that did not take part in the match (optional / "
                                   "alternated groups of a user-supplied pattern) makes this panic; use `.get(i)`" % i["name"], detail=d,
                                   loc="%s:%d" % (b.file, b.line))
+
+
+# R04j --------------------------------------------------------------------------------------------
+# callee patterns whose Err/None depends on the content of a run-time argument (API contract, not an internal invariant)
+DATA_DEPENDENT = [
+    (r" as [a-z0-9_]+::aead::Aead>::decrypt$", "AEAD decryption fails whenever the ciphertext/tag does not authenticate"),
+    (r"FromPrimitive>::from_f(32|64)$", "a float outside the target's range (or non-finite) converts to None"),
+    (r"^std::str::from_utf8(_mut)?$|^std::string::String::from_utf8$", "fails on any byte string that is not UTF-8; VRL bytes are arbitrary"),
+    (r"^std::str::<impl str>::parse$|FromStr>::from_str$", "parsing fails on any text outside the grammar"),
+    (r"^regex::(bytes::)?Regex(Builder)?::(new|build)$", "regex compilation fails on an invalid pattern"),
+    (r"DateTime::<.*>::parse_from_|NaiveDateTime::parse_from_str$|NaiveDate::parse_from_str$", "timestamp parsing fails on any text outside the format"),
+    (r"^serde_json::(de::)?from_(str|slice|value)$", "JSON decoding fails on malformed input"),
+]
+DATA_DEPENDENT_OK = {
+    # (function, callee tail) -> reason the argument is not run-time content
+    ("stdlib::parse_apache_log::parse_apache_log", "from_utf8"):
+        "the argument is the `format` bytes after they were matched against the literals b\"common\" / b\"combined\" / b\"error\" (any other value hits the arm before)",
+}
+
+
+def rule_r04j(chk, M):
+    import re
+    import cfgq
+    from cfgq import op_local
+    facts = chk.facts
+    rid = "R04j"
+    chk.rule(rid, "no unwrap/expect directly on the result of a content-dependent fallible library call in resolve-reachable stdlib code", floor=35)
+    pats = [(re.compile(p), why) for p, why in DATA_DEPENDENT]
+    seen_all = set()
+    for f in M.functions.values():
+        roots, seen, par = sr.resolve_reach(facts, M, f)
+        seen_all |= set(seen)
+    done = set()
+    for n in sorted(seen_all):
+        if not (n.startswith("stdlib::") or n.startswith("<stdlib::")):
+            continue
+        b = facts.body(n)
+        if b is None:
+            continue
+        for bb, t in b.calls():
+            cal = b.callee(t)
+            if not sr.PANICKY.match(cal):
+                continue
+            l = op_local(t["args"][0])
+            if l is None:
+                continue
+            last = cfgq.ref_chain(b, l)[-1]
+            for x in b.defs().get(last, []):
+                if x[0] != "call":
+                    continue
+                src = b.callee(x[3])
+                key = (n, src, cal.rsplit("::", 1)[1], t["ln"])
+                if key in done:
+                    continue
+                done.add(key)
+                why = next((w for p, w in pats if p.search(src)), None)
+                base = n.split("::{closure")[0]
+                tail = src.rsplit("::", 1)[1]
+                exempt = DATA_DEPENDENT_OK.get((base, tail))
+                d = {"fn": n, "producer": src, "consumer": key[2], "class": "content-dependent" if why else "outside the rule: the producer fails only on an internal invariant or the environment, not on argument content (not decided here)"}
+                if exempt:
+                    d["reviewed"] = exempt
+                ok = (why is None) or bool(exempt)
+                chk.instance(rid, d, ok=ok)
+                if not ok:
+                    chk.violation(rid, b.file, n, "%s().%s()" % (tail, key[2]),
+                                  "%s consumes the result of %s with %s: %s, so a run-time argument makes the host panic instead of the call returning an error"
+                                  % (n, src, key[2], why), detail=d, loc="%s:%s" % (b.file, t["ln"]))
